@@ -418,7 +418,7 @@ class ProgGen:
         L = [f"def {name}():"]
         results = []
         for _ in range(r.randint(2, 6)):
-            f = r.choice(['int', 'int', 'val', 'closure', 'nonlocal', 'localdef', 'forconst', 'ifconst', 'kwcall'])
+            f = r.choice(['int', 'int', 'val', 'closure', 'nonlocal', 'localdef', 'forconst', 'ifconst', 'kwcall', 'localsig', 'localsig'])
             if f == 'int':
                 v = self.fresh()
                 L.append(f"    {v} = {self.int_expr()}")
@@ -452,6 +452,49 @@ class ProgGen:
                 n = r.randint(1, 4)
                 i1 = self.fresh('ci')
                 L.append(f"    {v} = [({self.int_expr(1)}) * {i1} for {i1} in range({n})]")
+                results.append(v)
+            elif f == 'localsig':
+                # a function (or lambda) defined inside the traced code with a random signature: positional-only / normal /
+                # keyword-only parameters, defaults anywhere they are legal; called with a valid random argument list
+                fn, v = self.fresh('ls'), self.fresh()
+                npos, nnorm, nkw = r.randint(0, 2), r.randint(0, 2), r.randint(0, 2)
+                positional = [f"p{i}" for i in range(npos)] + [f"n{i}" for i in range(nnorm)]
+                ndef = r.randint(0, len(positional))
+                first_default = len(positional) - ndef
+                parts, weights = [], []
+                for i, n in enumerate(positional):
+                    parts.append(n if i < first_default else f"{n}={r.randint(1, 9)}")
+                    if i == npos - 1:
+                        parts.append('/')
+                kwonly = []
+                if nkw:
+                    parts.append('*')
+                    for i in range(nkw):
+                        dflt = r.random() < 0.5
+                        parts.append(f"k{i}" if not dflt else f"k{i}={r.randint(1, 9)}")
+                        kwonly.append((f"k{i}", dflt))
+                allnames = positional + [k for k, _ in kwonly]
+                expr = ' + '.join(f"{n} * {10 ** i}" for i, n in enumerate(allnames)) or '0'
+                as_lambda = r.random() < 0.3
+                if as_lambda:
+                    L.append(f"    {fn} = lambda {', '.join(parts)}: {expr}")
+                else:
+                    L += [f"    def {fn}({', '.join(parts)}):", f"        return {expr}"]
+                # a valid call: positional arguments for a prefix (at least the required positional-only ones), the remaining
+                # required parameters by keyword, optional ones at random
+                req_pos = min(first_default, npos)
+                npass = r.randint(req_pos, len(positional))
+                args = [str(r.randint(1, 9)) for _ in range(npass)]
+                for i, n in enumerate(positional[npass:], start=npass):
+                    if i < npos:
+                        continue                      # positional-only with default, left at its default
+                    if i < first_default or r.random() < 0.4:
+                        args.append(f"{n}={r.randint(1, 9)}")
+                for k, dflt in kwonly:
+                    if not dflt or r.random() < 0.4:
+                        args.append(f"{k}={r.randint(1, 9)}")
+                L.append(f"    {v} = {fn}({', '.join(args)})")
+                self.ints.append(v)
                 results.append(v)
             elif f == 'ifconst':
                 v = self.fresh()
